@@ -96,10 +96,10 @@ def check_tree(prop, tier, seed, work, ops, props_in_model):
         for name, consts in (("A", dict(two, enabled="EnabledA")), ("M", dict(two, enabled="EnabledM", mkeys=q(["K1.K1", "K1.K2", "K2.K1"])))):
             t = vf.run_tlc(work, "MC_TreeLaws", LAWS_CFG % consts + "INVARIANT QueryLaws\nCONSTRAINT EmitTreeQ\n", tag="query" + name, timeout=3000)
             states += t["distinct"]; trans += t["states"]
-            r = run_replay(bindir, h, "trees", ["-in", t["out"], "-modes", "query", "-seed", str(seed), "-prop", "C10", "-pkgs", ",".join(cfgs)] + (["-limit", "4"] if tier == "quick" else []), work, "query" + name)
+            r = run_replay(bindir, h, "trees", ["-in", t["out"], "-modes", "query,ptrans", "-seed", str(seed), "-prop", "C10", "-pkgs", ",".join(cfgs)] + (["-limit", "4"] if tier == "quick" else []), work, "query" + name)
             results.append(r)
             for k, v in (r.get("counters") or {}).items():
-                if k.startswith("queries"):
+                if k.startswith("queries") or k.startswith("ptrans"):
                     ext[k] = ext.get(k, 0) + v
         # extension: GetOrCreateNode as an action of the TreeMachine (GOCLaws), replayed like the others
         for name, consts in (("A", dict(two, enabled="EnabledA")), ("B", dict(two, enabled="EnabledB"))):
@@ -117,7 +117,7 @@ def check_tree(prop, tier, seed, work, ops, props_in_model):
     cov = dict(states=states, transitions=trans, traces_validated_against_impl=tot["evaluated"],
                samples=tot["samples"][:4], exhaustive=(tier == "thorough"), skipped_unconcretisable=tot["skipped"],
                distinct_edges=tot["distinct"], counters=tot["counters"], configurations=cfgs,
-               spec_drift=tot["drift"][:20], extension_getnode_wildcard_queries=ext,
+               spec_drift=tot["drift"][:20], extensions_beyond_listed_properties=ext,
                explanation="TLC explores every reachable state and transition of the TreeMachine slices A (keyed list, nested "
                            "container), B (leaf-list, presence container, ordered list) and M (two-key list) and checks the "
                            "declarative frame/removal properties on the operational model; every emitted transition is then "
